@@ -258,6 +258,66 @@ def search_bad(ctx, cov):
 
 # ---------------------------------------------------------------------------------------------
 
+
+# ---------------------------------------------------------------------------------------------
+# direct probe of "the lock is released when the guarded operation raises", on the real RWLock
+# and on the real CollectionStore (an abandoned `documents` scan is closed with GeneratorExit)
+
+class _Hard(BaseException):
+    pass
+
+
+def _free(rw):
+    """no section is held: a writer gets in at once (tried from another thread, bounded wait)"""
+    import threading
+    got = []
+
+    def w():
+        with rw.writer():
+            got.append(1)
+    t = threading.Thread(target=w, daemon=True)
+    t.start()
+    t.join(2.0)
+    return bool(got)
+
+
+def release_probe():
+    """[(description, python snippet)] for every way of leaving a section after which the lock
+    is still held"""
+    import mongomock.thread as mthread
+    import mongomock.store as mstore
+    bad = []
+    for kind in ('reader', 'writer'):
+        for exc in (KeyError, ValueError, _Hard, GeneratorExit, KeyboardInterrupt):
+            rw = mthread.RWLock()
+            try:
+                with getattr(rw, kind)():
+                    raise exc()
+            except BaseException:  # pylint: disable=broad-except
+                pass
+            if not _free(rw):
+                bad.append(('%s section left by %s: the lock stays held, the next writer blocks'
+                            % (kind, exc.__name__),
+                            'import mongomock.thread as t\nrw = t.RWLock()\ntry:\n'
+                            '    with rw.%s():\n        raise %s()\nexcept BaseException:\n'
+                            '    pass\n# now `with rw.writer(): pass` in another thread never returns'
+                            % (kind, exc.__name__ if exc is not _Hard else 'BaseException')))
+    # a scan of the store abandoned half-way (the consumer stops: generator closed)
+    st = mstore.CollectionStore('c')
+    st[1] = {'_id': 1}
+    st[2] = {'_id': 2}
+    g = st.documents
+    next(g)
+    g.close()
+    if not _free(st._rwlock):
+        bad.append(('a `documents` scan abandoned after the first document (generator closed): '
+                    'the read lock stays held, the next write blocks',
+                    'import mongomock.store as s\nst = s.CollectionStore("c"); st[1] = {"_id": 1}; '
+                    'st[2] = {"_id": 2}\ng = st.documents; next(g); g.close()\n'
+                    '# now st[3] = {} in another thread never returns'))
+    return bad
+
+
 def run(ctx, proof, driver_ok):
     have_driver = os.path.exists(wire.DRIVER) and REGEN.get('driver_built', True)
     known = {e['id'] for e in common.load_known('C19') if e.get('status') == 'known'}
@@ -269,6 +329,11 @@ def run(ctx, proof, driver_ok):
     n = ctx.n(200, 5000)
     if not proof.get('ok') and have_driver:
         search_bad(ctx, cov)
+    held = release_probe()
+    cov['release_probe'] = {'ways_of_leaving_a_section': 11, 'lock_still_held_after': len(held)}
+    for what, snip in held:
+        ctx.violation({'kind': 'property fails on the real code: lock not released when the '
+                               'guarded operation raises', 'what': what, 'python': snip}, rank=0)
     cases = []
     for _ in range(n):
         sc = gen_scenario(rng)
